@@ -61,7 +61,7 @@ class Executor(AccessMixin, BuiltinsMixin, StmtMixin, ExecutorBase):
                 heap, locs = f.loop_entry
             if heap is None:
                 raise Unsupported(name + "() outside a verified function")
-            return self.with_heap(heap, locs, lambda: self.ev(node.args[0], fr))
+            return self.with_heap(heap, locs, lambda: self.ev(node.args[0], fr), owner=f)
         if name == "implies":
             a = self.truthy(self.ev(node.args[0], fr))
             b = self.truthy(self.ev(node.args[1], fr))
@@ -78,7 +78,8 @@ class Executor(AccessMixin, BuiltinsMixin, StmtMixin, ExecutorBase):
             key = node.args[0].value
             g = self.st.ghost.get(key)
             if g is None:
-                raise Unsupported(f"ghost {key} not initialised")
+                g = SV(self.st.fresh_val("ghost_" + key), None)     # never set on this path: unconstrained
+                self.st.ghost[key] = g
             return g
         if name == "fresh":
             v = self.ev(node.args[0], fr)
@@ -106,13 +107,13 @@ class Executor(AccessMixin, BuiltinsMixin, StmtMixin, ExecutorBase):
             return h(Ctx(self, fr, name, node), *args)
         return None
 
-    def with_heap(self, heap, locs, thunk):
+    def with_heap(self, heap, locs, thunk, owner=None):
         st = self.st
         cur = st.heap
         tmp = dict(heap)
         st.heap = tmp
         prev_old = self.old_mode
-        self.old_mode = (heap, locs or {})
+        self.old_mode = (heap, locs or {}, owner)
         try:
             return thunk()
         finally:
@@ -345,7 +346,7 @@ def apply_contract(ex: Executor, c: Contract, fi: FuncInfo, args, kwargs, fr: Fr
         exc = outcomes[k]
         cond = (c.raises or {}).get(exc)
         if cond is not None and cond != "True":
-            f = ex.with_heap(nf.entry_heap, nf.entry_locals, lambda: ex.spec_bool(cond, nf))
+            f = ex.with_heap(nf.entry_heap, nf.entry_locals, lambda: ex.spec_bool(cond, nf), owner=nf)
             st.assume(f)
             if not st.feasible():
                 raise PathEnd()
@@ -354,7 +355,7 @@ def apply_contract(ex: Executor, c: Contract, fi: FuncInfo, args, kwargs, fr: Fr
         raise PyRaise(exc, None, f"from contract of {short}")
     # normal return: exclude the exception conditions that are stated as `iff`
     for exc, cond in (c.options.get("raises_iff") or {}).items():
-        f = ex.with_heap(nf.entry_heap, nf.entry_locals, lambda: ex.spec_bool(cond, nf))
+        f = ex.with_heap(nf.entry_heap, nf.entry_locals, lambda: ex.spec_bool(cond, nf), owner=nf)
         st.assume(z3.Not(f))
     rty = parse_ann(fi.node.returns) if fi.node.returns is not None else None
     if "result" in c.types:
@@ -363,6 +364,8 @@ def apply_contract(ex: Executor, c: Contract, fi: FuncInfo, args, kwargs, fr: Fr
     if rty is not None and rty.name in ("list", "tuple"):
         pass
     nf.locals["result"] = res
+    if any(isinstance(e, str) and "ghost('now')" in e for _l, e in c.label_ensures()):
+        ex.call_external("time.time", [], {}, nf, None)      # the callee's clock reading: a fresh non-decreasing real
     for lab, f in eval_spec_list(ex, [e for _l, e in c.label_ensures()], nf):
         st.assume(f)
     if not st.feasible():
@@ -414,6 +417,8 @@ def verify_function(repo: Repo, contracts: dict, target: str, prop_id: str, max_
     short = target.split(":")[1]
     ex = Executor(repo, contracts, prop_id)
     ex.top_qualname = target
+    ex.top_contract = c
+    Frame.top_contract = c
     ex.spec_funcs = spec_funcs or {}
     ex.bounded_used = False
     work = [[]]
@@ -521,14 +526,14 @@ def _run_path(ex: Executor, c: Contract, fi: FuncInfo, fr: Frame, short: str, re
             else:
                 cond = c.raises[allowed[0]]
                 if cond not in (None, "True"):
-                    f = ex.with_heap(fr.entry_heap, fr.entry_locals, lambda: ex.spec_bool(cond, fr))
+                    f = ex.with_heap(fr.entry_heap, fr.entry_locals, lambda: ex.spec_bool(cond, fr), owner=fr)
                     st.check(f"{ex.prop_id}/{short}/raises-when:{exc.cls}", f, "exception-condition", wf)
         specs = c.exc_ensures.get(exc.cls, []) + c.exc_ensures.get("*", [])
         for lab, f in eval_spec_list(ex, specs, fr):
             st.check(f"{ex.prop_id}/{short}/exc-ensures[{exc.cls}]:{lab}", f, "exceptional-postcondition", wf)
     if kind == "return":
         for exc, cond in (c.options.get("raises_iff") or {}).items():
-            f = ex.with_heap(fr.entry_heap, fr.entry_locals, lambda: ex.spec_bool(cond, fr))
+            f = ex.with_heap(fr.entry_heap, fr.entry_locals, lambda: ex.spec_bool(cond, fr), owner=fr)
             st.check(f"{ex.prop_id}/{short}/must-raise:{exc}", z3.Not(f), "exception-condition", wf)
     if c.on_exit is not None:
         from .api import Ctx
@@ -553,7 +558,7 @@ def _check_frame(ex, c: Contract, fi, fr, short, wf):
             if "*" in allowed:
                 continue
             for e in allowed:
-                refs.append(RID(ex.with_heap(fr.entry_heap, fr.entry_locals, lambda e=e: ex.spec_eval(e, fr)).term))
+                refs.append(RID(ex.with_heap(fr.entry_heap, fr.entry_locals, lambda e=e: ex.spec_eval(e, fr), owner=fr).term))
         r = z3.Int("r!frame")
         cond = z3.And(r >= 0, r < fr.entry_alloc, *[r != x for x in refs])
         st.check(f"{ex.prop_id}/{short}/frame:{f}", z3.ForAll([r], z3.Implies(cond, z3.Select(cur, r) == z3.Select(old, r))),
